@@ -36,9 +36,14 @@ def node_source(i: Any, nd: Dict[str, Any]) -> str:
     if st_ in ("sync", "async"):
         return head + pre + f"    return {ident}"
     deco = {"gen": "", "agen": "", "cm": "@contextlib.contextmanager\n", "acm": "@contextlib.asynccontextmanager\n"}[st_]
+    if nd.get("affine"):
+        # a dependency whose teardown belongs to the task / context that opened it: a ContextVar token (the same holds for an anyio
+        # cancel scope or task group held around the yield) - reset() in another context raises ValueError
+        pre += f"    _tok = SCOPE.set({ident})\n"
     body = (f"    try:\n        yield {ident}\n    except BaseException as e:\n        LOG('saw', {ident}, type(e).__name__)\n"
             + ("        pass\n" if nd.get("swallow") else "        raise\n")
             + "    finally:\n"
+            + ("        SCOPE.reset(_tok)\n" if nd.get("affine") else "")
             + (f"        await asyncio.sleep({nd['tsleep']})\n" if is_async and nd.get("tsleep") else "")      # a teardown that takes a while (flush, commit)
             + f"        LOG('close', {ident})\n")
     if nd.get("fail") == "after":
@@ -47,7 +52,7 @@ def node_source(i: Any, nd: Dict[str, Any]) -> str:
 
 
 def program_source(nodes: List[Dict[str, Any]], task_deps: List[Any], task: Dict[str, Any]) -> str:
-    L = ["import asyncio, contextlib, typing", "import pydantic", "from taskiq import TaskiqDepends, Context"]
+    L = ["import asyncio, contextlib, contextvars, typing", "import pydantic", "from taskiq import TaskiqDepends, Context", "SCOPE = contextvars.ContextVar('scope', default=None)"]
     if task.get("box"):
         L.append("class Box(pydantic.BaseModel):\n    items: typing.List[int]\n\n    @pydantic.model_validator(mode='before')\n    @classmethod\n"
                  "    def _short_form(cls, v):\n        if isinstance(v, str):\n            return {'items': [int(x) for x in v.split(',')]}\n        return v")
